@@ -150,29 +150,33 @@ Record client := mkClient {
   c_t2    : bool;            (* t2's pool has a connection for the origin *)
   c_t3    : t3st;
   c_alt   : altst;           (* pendingAltSvcs / altSvcJar entry for the origin *)
-  c_bg    : bool             (* a handlePendingAltSvc goroutine has been started and has not run yet *)
+  c_bg    : bool;            (* a handlePendingAltSvc goroutine has been started and has not run yet *)
+  c_alti  : bool             (* the HTTP/1 idle list holds the persistConn{alt: t2} that dialConn returned after an
+                                ALPN hand-off (key onlyH1 = false); such an entry is never taken out, a request that
+                                gets it goes through t2.RoundTrip - which may dial *)
 }.
 (* req.C(): transport.go T() + client.go C() *)
 Definition new_client : client :=
-  mkClient (Some (mkTls [] [] [] false default_next_protos)) FNone false false false None None false false false T3None ANone false.
+  mkClient (Some (mkTls [] [] [] false default_next_protos)) FNone false false false None None false false false T3None ANone false false.
 
-Definition with_tls o c := mkClient o (c_force c) (c_h3 c) (c_allow_http c) (c_plain_dialtls c) (c_udial c) (c_uhs c) (c_idle c) (c_idle1 c) (c_t2 c) (c_t3 c) (c_alt c) (c_bg c).
-Definition with_force f c := mkClient (c_tls c) f (c_h3 c) (c_allow_http c) (c_plain_dialtls c) (c_udial c) (c_uhs c) (c_idle c) (c_idle1 c) (c_t2 c) (c_t3 c) (c_alt c) (c_bg c).
-Definition with_h3 b c := mkClient (c_tls c) (c_force c) b (c_allow_http c) (c_plain_dialtls c) (c_udial c) (c_uhs c) (c_idle c) (c_idle1 c) (c_t2 c) (c_t3 c) (c_alt c) (c_bg c).
-Definition with_h2c a p c := mkClient (c_tls c) (c_force c) (c_h3 c) a p None (c_uhs c) (c_idle c) (c_idle1 c) (c_t2 c) (c_t3 c) (c_alt c) (c_bg c).
-Definition with_allow a c := mkClient (c_tls c) (c_force c) (c_h3 c) a (c_plain_dialtls c) (c_udial c) (c_uhs c) (c_idle c) (c_idle1 c) (c_t2 c) (c_t3 c) (c_alt c) (c_bg c).
+Definition with_tls o c := mkClient o (c_force c) (c_h3 c) (c_allow_http c) (c_plain_dialtls c) (c_udial c) (c_uhs c) (c_idle c) (c_idle1 c) (c_t2 c) (c_t3 c) (c_alt c) (c_bg c) (c_alti c).
+Definition with_force f c := mkClient (c_tls c) f (c_h3 c) (c_allow_http c) (c_plain_dialtls c) (c_udial c) (c_uhs c) (c_idle c) (c_idle1 c) (c_t2 c) (c_t3 c) (c_alt c) (c_bg c) (c_alti c).
+Definition with_h3 b c := mkClient (c_tls c) (c_force c) b (c_allow_http c) (c_plain_dialtls c) (c_udial c) (c_uhs c) (c_idle c) (c_idle1 c) (c_t2 c) (c_t3 c) (c_alt c) (c_bg c) (c_alti c).
+Definition with_h2c a p c := mkClient (c_tls c) (c_force c) (c_h3 c) a p None (c_uhs c) (c_idle c) (c_idle1 c) (c_t2 c) (c_t3 c) (c_alt c) (c_bg c) (c_alti c).
+Definition with_allow a c := mkClient (c_tls c) (c_force c) (c_h3 c) a (c_plain_dialtls c) (c_udial c) (c_uhs c) (c_idle c) (c_idle1 c) (c_t2 c) (c_t3 c) (c_alt c) (c_bg c) (c_alti c).
 (* EnableH2C / DisableH2C.  Pinned code: EnableH2C also installed a plain net.Dial in the DialTLSContext slot
    (which every https connection of the client then used) and DisableH2C cleared the slot; repaired code: only the
    http2 AllowHTTP flag changes, http:// requests are dialled plain by the http2 transport itself *)
 Definition set_h2c (b : bool) (c : client) : client :=
   if h2c_installs_plain_dialtls then with_h2c b b c else with_allow b c.
-Definition with_idle i i1 c := mkClient (c_tls c) (c_force c) (c_h3 c) (c_allow_http c) (c_plain_dialtls c) (c_udial c) (c_uhs c) i i1 (c_t2 c) (c_t3 c) (c_alt c) (c_bg c).
-Definition with_t2 b c := mkClient (c_tls c) (c_force c) (c_h3 c) (c_allow_http c) (c_plain_dialtls c) (c_udial c) (c_uhs c) (c_idle c) (c_idle1 c) b (c_t3 c) (c_alt c) (c_bg c).
-Definition with_t3 x c := mkClient (c_tls c) (c_force c) (c_h3 c) (c_allow_http c) (c_plain_dialtls c) (c_udial c) (c_uhs c) (c_idle c) (c_idle1 c) (c_t2 c) x (c_alt c) (c_bg c).
+Definition with_idle i i1 c := mkClient (c_tls c) (c_force c) (c_h3 c) (c_allow_http c) (c_plain_dialtls c) (c_udial c) (c_uhs c) i i1 (c_t2 c) (c_t3 c) (c_alt c) (c_bg c) (c_alti c).
+Definition with_t2 b c := mkClient (c_tls c) (c_force c) (c_h3 c) (c_allow_http c) (c_plain_dialtls c) (c_udial c) (c_uhs c) (c_idle c) (c_idle1 c) b (c_t3 c) (c_alt c) (c_bg c) (c_alti c).
+Definition with_t3 x c := mkClient (c_tls c) (c_force c) (c_h3 c) (c_allow_http c) (c_plain_dialtls c) (c_udial c) (c_uhs c) (c_idle c) (c_idle1 c) (c_t2 c) x (c_alt c) (c_bg c) (c_alti c).
 (* SetDialTLS(fn) / SetDialTLS(nil): the single DialTLSContext slot (EnableH2C's plain dialler is overwritten) *)
-Definition with_udial o c := mkClient (c_tls c) (c_force c) (c_h3 c) (c_allow_http c) false o (c_uhs c) (c_idle c) (c_idle1 c) (c_t2 c) (c_t3 c) (c_alt c) (c_bg c).
-Definition with_uhs o c := mkClient (c_tls c) (c_force c) (c_h3 c) (c_allow_http c) (c_plain_dialtls c) (c_udial c) o (c_idle c) (c_idle1 c) (c_t2 c) (c_t3 c) (c_alt c) (c_bg c).
-Definition with_alt a bg c := mkClient (c_tls c) (c_force c) (c_h3 c) (c_allow_http c) (c_plain_dialtls c) (c_udial c) (c_uhs c) (c_idle c) (c_idle1 c) (c_t2 c) (c_t3 c) a bg.
+Definition with_udial o c := mkClient (c_tls c) (c_force c) (c_h3 c) (c_allow_http c) false o (c_uhs c) (c_idle c) (c_idle1 c) (c_t2 c) (c_t3 c) (c_alt c) (c_bg c) (c_alti c).
+Definition with_uhs o c := mkClient (c_tls c) (c_force c) (c_h3 c) (c_allow_http c) (c_plain_dialtls c) (c_udial c) o (c_idle c) (c_idle1 c) (c_t2 c) (c_t3 c) (c_alt c) (c_bg c) (c_alti c).
+Definition with_alti b c := mkClient (c_tls c) (c_force c) (c_h3 c) (c_allow_http c) (c_plain_dialtls c) (c_udial c) (c_uhs c) (c_idle c) (c_idle1 c) (c_t2 c) (c_t3 c) (c_alt c) (c_bg c) b.
+Definition with_alt a bg c := mkClient (c_tls c) (c_force c) (c_h3 c) (c_allow_http c) (c_plain_dialtls c) (c_udial c) (c_uhs c) (c_idle c) (c_idle1 c) (c_t2 c) (c_t3 c) a bg (c_alti c).
 
 (* ---------- configuration operations ---------- *)
 (* client.go GetTLSClientConfig: allocate {NextProtos: h2, http/1.1} when the pointer is nil *)
@@ -293,6 +297,11 @@ Definition rt_h2_dial (e : env) (c : client) : res :=
 (* getConn + dialConn + the request on the connection obtained *)
 Definition rt_conn (e : env) (c : client) : res :=
   let only_h1 := match c_force c with FH1 => true | _ => false end in     (* connectMethodForRequest *)
+  if negb only_h1 && e_https e && c_alti c then
+    (* the idle list hands out the persistConn{alt: t2} of an earlier hand-off: t2.RoundTrip - a cached HTTP/2
+       connection, or (none left: the last one was used up by a Connection: close request) a dial of its own *)
+    if c_t2 c then (Use V2, [], c) else rt_h2_dial e c
+  else
   if (if only_h1 then c_idle1 c else c_idle c) then (Use V1, [], c) else  (* idle connection under that key *)
   let idle c' := if only_h1 then with_idle (c_idle c') true c' else with_idle true (c_idle1 c') c' in
   if negb (e_https e) then (Use V1, [], idle c) else
@@ -307,7 +316,7 @@ Definition rt_conn (e : env) (c : client) : res :=
         then (Fail EProto, [mk_dial S1 cfg h], c)   (* only with caller-supplied TLS (addTLS offers no ALPN under onlyH1):
                                                        h2 negotiated, no hand-off because HTTP/1.1 is forced, HTTP/1.1
                                                        written to an HTTP/2 server *)
-        else (Use V2, [mk_dial S1 cfg h], with_t2 true c)                 (* t2.AddConn, alt = t2 *)
+        else (Use V2, [mk_dial S1 cfg h], with_alti true (with_t2 true c))   (* t2.AddConn, alt = t2 *)
       else (Use V1, [mk_dial S1 cfg h], idle c)
   end.
 
@@ -379,7 +388,12 @@ Definition round_trip_close (guard : bool) (e : env) (c : client) : res :=
     let '(o, ds, c1) := round_trip_gen guard e c in
     match o, ds with
     | Use V2, [] => (o, ds, with_t2 false c1)
-    | Use V2, _ => let '(o2, ds2) := own_h2_conn e c1 in (o2, ds ++ ds2, c1)
+    | Use V2, d :: _ =>
+        match d_stack d with
+        | S1 => let '(o2, ds2) := own_h2_conn e c1 in (o2, ds ++ ds2, c1)   (* hand-off, then the own connection *)
+        | _ => (o, ds, with_t2 false c1)   (* dialled by the http2 transport itself (alt entry of the idle list): that
+                                              IS the own, single-use connection *)
+        end
     | Use V1, _ => (o, ds, clear_idle c1)
     | _, _ => (o, ds, c1)
     end
@@ -414,7 +428,7 @@ Definition do_bg (e : env) (c : client) : list dial * client :=
 (* Transport.Clone (+ Options.Clone): configuration copied, connection state fresh *)
 Definition do_clone (c : client) : client :=
   mkClient (c_tls c) (c_force c) (c_h3 c) (clone_copies_allow_http && c_allow_http c) (c_plain_dialtls c)
-           (c_udial c) (c_uhs c) false false false T3None ANone false.
+           (c_udial c) (c_uhs c) false false false T3None ANone false false.
 
 (* Alt-Svc bookkeeping as the hook VerifAltSvcState reports it *)
 Inductive altobs := AOff | AObsNone | AObsPending | AObsReady | AObsJar.
@@ -455,7 +469,7 @@ Definition step_gen (guard : bool) (e : env) (c : client) (o : op) : obs * clien
   | ODialTLS o => (ObsCfg, with_udial o c)
   | OHandshake o => (ObsCfg, with_uhs o c)
   | OClone => (ObsCfg, do_clone c)
-  | OCloseIdle => (ObsCfg, with_idle false false (with_t2 false (if closeidle_closes_h3 then with_t3 T3None c else c)))
+  | OCloseIdle => (ObsCfg, with_alti false (with_idle false false (with_t2 false (if closeidle_closes_h3 then with_t3 T3None c else c))))
   | OBg => let '(ds, c') := do_bg e c in (ObsBg ds (alt_obs c'), c')
   | OReq => let '(o, ds, c') := do_req_gen guard e c in (ObsReq o ds, c')
   | OReqClose => let '(o, ds, c') := do_req_close_gen guard e c in (ObsReq o ds, c')
